@@ -98,6 +98,17 @@ def main(argv=None):
     ap.add_argument('--update-ledger', action='store_true', help='maintainer use: rewrite ledger/<id>.json from this run')
     a = ap.parse_args(argv)
     seed = int(os.environ.get('VERIF_SEED', '0') or 0)
+    # watchdog: a solver call that ignores its limits must not hang the check; over budget => undecided (exit 2)
+    import threading
+    budget = int(os.environ.get('VERIF_BUDGET_S', '1500' if a.tier == 'quick' else '7200'))
+
+    def _expire():
+        sys.stdout.write('UNDECIDED: property=%s check exceeded its time budget of %d s (a solver call did not return)\n' % (a.prop, budget))
+        sys.stdout.flush()
+        os._exit(2)
+    wd = threading.Timer(budget, _expire)
+    wd.daemon = True
+    wd.start()
     if a.replay:
         return report.replay_file(a.replay)
     try:
